@@ -126,7 +126,7 @@ func discharge(vc *VC, o *Obligation, dir string, timeout time.Duration, seed in
 	}
 	ctx, cancel := context.WithCancel(context.Background())
 	defer cancel()
-	ch := make(chan solveOut, len(solvers)+3)
+	ch := make(chan solveOut, len(solvers)+5)
 	var wg sync.WaitGroup
 	start := time.Now()
 	launch := func(sd solverDef, delay time.Duration) {
@@ -174,6 +174,26 @@ func discharge(vc *VC, o *Obligation, dir string, timeout time.Duration, seed in
 			so := runSolver(ctx, solvers[0], timeout, fileIN)
 			so.solver = "z3-new(inlined-pure)"
 			if so.result == "sat" && !inExact {
+				so.result = "unknown"
+			}
+			ch <- so
+		}()
+	}
+	// a goal that is one universal statement: also try it with the bound variables replaced by fresh constants
+	// (the textbook Skolem form of the negated goal; z3 is markedly faster on it than on "(not (forall ...))")
+	if decls, body, ok := skolemGoal(o.Goal); ok && !o.Vacuity {
+		fileSK := strings.TrimSuffix(file, ".smt2") + ".skolem.smt2"
+		o2 := *o
+		o2.Extra = append(append([]string(nil), o.Extra...), decls...)
+		o2.Goal = body
+		os.WriteFile(fileSK, []byte(vc.render(&o2, false)), 0o644)
+		n++
+		wg.Add(1)
+		go func() {
+			defer wg.Done()
+			so := runSolver(ctx, solvers[0], timeout, fileSK)
+			so.solver = "z3-new(skolem-goal)"
+			if so.result != "unsat" {
 				so.result = "unknown"
 			}
 			ch <- so
@@ -242,6 +262,62 @@ func discharge(vc *VC, o *Obligation, dir string, timeout time.Duration, seed in
 		o.Solver = strings.Join(parts, ", ")
 	}
 	go func() { wg.Wait() }()
+}
+
+// skolemGoal splits "(forall ((x S) ...) body)" into declarations of x ... as constants and the body
+// (a "(! body :pattern ...)" annotation is dropped). Bound names are unique in a query (they carry a counter).
+func skolemGoal(goal string) (decls []string, body string, ok bool) {
+	g := strings.TrimSpace(goal)
+	if !strings.HasPrefix(g, "(forall (") || !strings.HasSuffix(g, ")") {
+		return nil, "", false
+	}
+	sexprEnd := func(s string, from int) int {
+		depth := 0
+		for i := from; i < len(s); i++ {
+			switch s[i] {
+			case '(':
+				depth++
+			case ')':
+				depth--
+				if depth == 0 {
+					return i + 1
+				}
+			}
+		}
+		return -1
+	}
+	bStart := len("(forall ")
+	bEnd := sexprEnd(g, bStart)
+	if bEnd < 0 {
+		return nil, "", false
+	}
+	binders := g[bStart+1 : bEnd-1]
+	for i := 0; i < len(binders); {
+		for i < len(binders) && binders[i] != '(' {
+			i++
+		}
+		if i >= len(binders) {
+			break
+		}
+		e := sexprEnd(binders, i)
+		if e < 0 {
+			return nil, "", false
+		}
+		decls = append(decls, "(declare-const "+binders[i+1:e-1]+")")
+		i = e
+	}
+	body = strings.TrimSpace(g[bEnd : len(g)-1])
+	if strings.HasPrefix(body, "(! ") {
+		e := sexprEnd(body, 3)
+		if e < 0 || body[3] != '(' {
+			return nil, "", false
+		}
+		body = body[3:e]
+	}
+	if len(decls) == 0 || body == "" || sexprEnd(body, 0) != len(body) {
+		return nil, "", false
+	}
+	return decls, body, true
 }
 
 func firstLines(s string, n int) string {
